@@ -67,7 +67,7 @@ CHECKS.update({
             "model assigns to it (R1); wire-name precedence rename > rename_all > identifier at every naming site and serde's routing of "
             "rename_all_fields (R2); the complete enum representation matrix (variant-untagged x 4 taggings x 5 field shapes x skipped): exactly "
             "one template is selected per cell and it carries exactly tag/name/content/payload in serde's shape and order (R3); the struct-level "
-            "tag property is emitted first (R4). Flatten/tag composition, nesting and value-level membership are NOT decided."),
+            "tag property is emitted first (R4); tag handed to variants only where serde does (R5); shape dispatch and empty/skipped shapes (R6; one known finding: a skipped newtype *struct* field is declared `null`, serde ignores the skip). Flatten/tag composition, nesting and value-level membership are NOT decided."),
     "C02": ("DESIGN.md section 3/C02",
             "template guard recognition, impl inventory and dominance on MIR, enum representation matrix",
             "Decides: `?` can only be emitted under the IsOption bound or the IS_OPTION test, IsOption/IS_OPTION exist only for Option<T> and are not "
